@@ -170,4 +170,95 @@ theorem cmin_le_cmax (p q : ℝ × ℝ) (hp : 1 ≤ p.2) (hq : q.2 < 1) (hq0 : 0
     · rw [not_le] at hc
       nlinarith [mul_nonneg hq0 (le_of_lt (sub_pos.mpr hc)), mul_nonneg (sub_nonneg.mpr ha) (mul_nonneg (le_of_lt (lt_of_lt_of_le one_pos hp)) (sub_nonneg.mpr (le_of_lt hq)))]
 
+theorem fst_le_sum (l : List (ℝ × ℝ)) (h0 : ∀ p ∈ l, 0 ≤ p.1) : ∀ p ∈ l, p.1 ≤ (l.map Prod.fst).sum := by
+  induction l with
+  | nil => intro p hp; simp at hp
+  | cons x xs ih =>
+    intro p hp
+    have hx : 0 ≤ x.1 := h0 x List.mem_cons_self
+    have hs : 0 ≤ (xs.map Prod.fst).sum := List.sum_nonneg (by
+      intro a ha; obtain ⟨q, hq, rfl⟩ := List.mem_map.mp ha; exact h0 q (List.mem_cons_of_mem _ hq))
+    simp only [List.map_cons, List.sum_cons]
+    rcases List.mem_cons.mp hp with rfl | hp'
+    · linarith
+    · have := ih (fun q hq => h0 q (List.mem_cons_of_mem _ hq)) p hp'
+      linarith
+
+/-- two different entries of a non-negative list: their sum is at most the total -/
+theorem pair_le_sum (l : List (ℝ × ℝ)) (h0 : ∀ p ∈ l, 0 ≤ p.1) :
+    ∀ p ∈ l, ∀ q ∈ l, p ≠ q → p.1 + q.1 ≤ (l.map Prod.fst).sum := by
+  induction l with
+  | nil => intro p hp; simp at hp
+  | cons x xs ih =>
+    intro p hp q hq hne
+    have h0' : ∀ p ∈ xs, 0 ≤ p.1 := fun q hq => h0 q (List.mem_cons_of_mem _ hq)
+    have hx : 0 ≤ x.1 := h0 x List.mem_cons_self
+    simp only [List.map_cons, List.sum_cons]
+    rcases List.mem_cons.mp hp with rfl | hp'
+    · rcases List.mem_cons.mp hq with rfl | hq'
+      · exact absurd rfl hne
+      · have := fst_le_sum xs h0' q hq'; linarith
+    · rcases List.mem_cons.mp hq with rfl | hq'
+      · have := fst_le_sum xs h0' p hp'; linarith
+      · have := ih h0' p hp' q hq' hne; linarith
+
+/-- the bracket [beta_min, beta_max] of (7)/(8) is non-empty and inside [0,1] for a composition -/
+theorem bounds_bracket (l : List (ℝ × ℝ)) (hz : ∀ p ∈ l, 0 ≤ p.1) (hk : ∀ p ∈ l, 0 ≤ p.2)
+    (hsum : (l.map Prod.fst).sum = 1) :
+    0 ≤ (l.foldl boundsStep (0, 1)).1 ∧ (l.foldl boundsStep (0, 1)).1 ≤ (l.foldl boundsStep (0, 1)).2
+      ∧ (l.foldl boundsStep (0, 1)).2 ≤ 1 := by
+  have hmono := bounds_fold_mono l (0, 1)
+  have hc := bounds_fold_is_cand l (0, 1)
+  have hz1 : ∀ p ∈ l, p.1 ≤ 1 := fun p hp => hsum ▸ fst_le_sum l hz p hp
+  refine ⟨hmono.1, ?_, hmono.2⟩
+  rcases hc.1 with h1 | ⟨p, hp, hpk, h1⟩ <;> rcases hc.2 with h2 | ⟨q, hq, hqk, h2⟩ <;> rw [h1, h2]
+  · norm_num
+  · exact cmax_nonneg q (hz1 q hq) hqk
+  · exact cmin_le_one p (hz1 p hp) hpk
+  · have hne : p ≠ q := by
+      intro h; rw [h] at hpk; linarith
+    have := pair_le_sum l hz p hp q hq hne
+    exact cmin_le_cmax p q hpk hqk (hk q hq) (hz p hp) (hz q hq) (by linarith)
+
+/-- without any ordering: both bounds lie in [0,1] as soon as every z ≤ 1 -/
+theorem bounds_unit (l : List (ℝ × ℝ)) (hz1 : ∀ p ∈ l, p.1 ≤ 1) :
+    0 ≤ (l.foldl boundsStep (0, 1)).1 ∧ (l.foldl boundsStep (0, 1)).1 ≤ 1 ∧
+    0 ≤ (l.foldl boundsStep (0, 1)).2 ∧ (l.foldl boundsStep (0, 1)).2 ≤ 1 := by
+  have hmono := bounds_fold_mono l (0, 1)
+  have hc := bounds_fold_is_cand l (0, 1)
+  refine ⟨hmono.1, ?_, ?_, hmono.2⟩
+  · rcases hc.1 with h1 | ⟨p, hp, hpk, h1⟩ <;> rw [h1]
+    · norm_num
+    · exact cmin_le_one p (hz1 p hp) hpk
+  · rcases hc.2 with h2 | ⟨q, hq, hqk, h2⟩ <;> rw [h2]
+    · norm_num
+    · exact cmax_nonneg q (hz1 q hq) hqk
+
+/-! ### `getD` with default 0 through `zipWith` / `map` -/
+
+theorem getD_zipWith_len (f : ℝ → ℝ → ℝ) (h00 : f 0 0 = 0) :
+    ∀ (a b : List ℝ), a.length = b.length → ∀ i, (List.zipWith f a b).getD i 0 = f (a.getD i 0) (b.getD i 0) := by
+  intro a
+  induction a with
+  | nil => intro b hb i; cases b with
+    | nil => simp [h00]
+    | cons y ys => simp at hb
+  | cons x xs ih =>
+    intro b hb i
+    cases b with
+    | nil => simp at hb
+    | cons y ys =>
+      cases i with
+      | zero => simp
+      | succ j =>
+        simp only [List.zipWith_cons_cons, List.getD_cons_succ]
+        exact ih ys (by simpa using hb) j
+
+theorem getD_map0 (f : ℝ → ℝ) (h0 : f 0 = 0) (a : List ℝ) (i : Nat) : (a.map f).getD i 0 = f (a.getD i 0) := by
+  induction a generalizing i with
+  | nil => simp [h0]
+  | cons x xs ih => cases i with
+    | zero => simp
+    | succ j => simp only [List.map_cons, List.getD_cons_succ]; exact ih j
+
 end TamocV.Lemmas.C02
